@@ -554,6 +554,10 @@ func (f *Frame) callByContract(callee *ssa.Function, ct *Contract, args []Val, r
 
 func (f *Frame) applyContract(sig *types.Signature, ct *Contract, env map[string]Val, rt types.Type, pos, desc, calleeName, calleePkg string) Val {
 	s := f.s
+	if s.usedContracts == nil {
+		s.usedContracts = map[string]bool{}
+	}
+	s.usedContracts[ct.Kind+":"+ct.Key()] = true
 	pre := f.cur.heap.clone()
 	// a pseudo-frame carrying the callee's environment
 	g := &Frame{s: s, fn: f.fn, c: ct, env: env, parent: f, depth: f.depth + 1, dry: f.dry, vals: f.vals}
@@ -625,7 +629,9 @@ func (f *Frame) applyContract(sig *types.Signature, ct *Contract, env map[string
 				if ac.Cond != nil {
 					fact = implies(evalIn(*ac.Cond, preView, nil), fact)
 				}
+				s.weakKey = "$bytes"
 				s.fact(implies(and(f.cur.reach, pc), fact))
+				s.weakKey = ""
 				if ct.AllocAssumed {
 					s.assume("allocation bound of " + calleeName + " on panic is assumed, not verified: " + ac.Text)
 				}
@@ -703,7 +709,9 @@ func (f *Frame) applyContract(sig *types.Signature, ct *Contract, env map[string
 			if ac.Cond != nil {
 				fact = implies(evalIn(*ac.Cond, lp.view(), renv), fact)
 			}
+			s.weakKey = "$bytes"
 			s.fact(implies(f.cur.reach, fact))
+			s.weakKey = ""
 			if ct.AllocAssumed {
 				s.assume("allocation bound of " + calleeName + " is assumed, not verified: " + ac.Text)
 			}
